@@ -28,7 +28,7 @@ impl Property for C16 {
     }
     fn rule(&self) -> &'static str {
         "2-6 commands (redo, redo-ifchange, redo-ood, redo-targets, redo-sources) started together or \
-         at drawn later steps on one project, including on a project with no .redo directory yet; all \
+         at drawn later steps on one project (sometimes two builders naming the same two targets in opposite order), including on a project with no .redo directory yet and on a built project from which generated files were removed; all \
          scripts succeed; every interleaving point of SQLite's own fcntl locks and writes is a \
          scheduling point and its busy handler runs on simulated time; oracle: every command exits 0, no \
          output mentions a busy/locked/missing-table/connect error, integrity_check is ok afterwards and \
@@ -42,7 +42,18 @@ impl Property for C16 {
         let g = gen_graph(rng, &p);
         let mut sc = g.scenario("c16");
         let fresh = index % 2 == 0;
-        if !fresh {
+        let removed_family = index % 6 == 5;
+        if removed_family {
+            // everything was built once, then some generated files were removed:
+            // the queries meet records that say "generated" for files that are
+            // gone, while builds commit next to them
+            sc.history.push(Step::Cmds(vec![redo_cmd(rng, "redo-ifchange", &[g.top()], 2, 0)]));
+            let mut ts = g.targets.clone();
+            rng.shuffle(&mut ts);
+            for t in ts.into_iter().take(rng.range(1, 2) as usize) {
+                sc.history.push(Step::Remove { path: t });
+            }
+        } else if !fresh {
             sc.history.push(Step::Cmds(vec![redo_cmd(
                 rng,
                 "redo-ifchange",
@@ -84,8 +95,28 @@ impl Property for C16 {
             }
             cmds.push(c);
         }
+        if index % 6 == 1 && g.targets.len() >= 2 {
+            // two builders that want the same two targets in opposite order
+            let mut two = g.targets.clone();
+            rng.shuffle(&mut two);
+            two.truncate(2);
+            let prog = if rng.chance(1, 2) { "redo" } else { "redo-ifchange" };
+            let a = redo_cmd(rng, prog, &two, 2, 250);
+            two.reverse();
+            let mut b = redo_cmd(rng, prog, &two, 2, 250);
+            if rng.chance(1, 2) {
+                b.start_step = rng.range(0, 300);
+            }
+            cmds.push(a);
+            cmds.push(b);
+        }
         if !cmds.iter().any(|c| c.argv[0] == "redo" || c.argv[0] == "redo-ifchange") {
             cmds[0] = redo_cmd(rng, "redo", &[g.top()], 4, 250);
+        }
+        if removed_family && !cmds.iter().any(|c| c.argv[0] == "redo-ood") {
+            let mut c = Cmd::new(&["redo-ood"]);
+            c.start_step = rng.range(0, 600);
+            cmds.push(c);
         }
         sc.history.push(Step::Cmds(cmds));
         Case {
